@@ -236,6 +236,7 @@ STATEFUL = {
     "riemann2D_2section_steadystate.ep_riemann2D_2section_steadystate.IGEOS_Solver":
         ("attr", "riemann2D", {"top_state": [0.25, 0.5, 6.0, 0.0, 1.4]}),
     "sedov.sedov.Sedov": ("attr", "sedov", {"geometry": 2, "omega": 0.5, "gamma": 5.0 / 3.0}),
+    "sedov.SphericalSedov": ("attr", "sedov", {"omega": 2.4, "gamma": 1.4}),      # second parameter set: a vacuum-type solution
     "mader.timmes.Mader": ("attr", "mader", {"u_piston": 1.0e4}),
     "sdrz.sdrz.SteadyDetonationReactionZone": ("attr", "sdrz", {"D": 1.0, "rho_0": 2.0}),
     "radshocks.nED_radshocks.nED_Solver": ("eager", "radshocks", {"M0": 1.4}),
@@ -249,7 +250,7 @@ STATEFUL = {
 }
 # request-grid dependence that the documentation states (values may move within the
 # documented resolution when the *batch* changes; never when only history changes)
-GRID_DEPENDENT = {"sedov.sedov.Sedov", "mader.timmes.Mader", "sdrz.sdrz.SteadyDetonationReactionZone",
+GRID_DEPENDENT = {"sedov.sedov.Sedov", "sedov.SphericalSedov", "mader.timmes.Mader", "sdrz.sdrz.SteadyDetonationReactionZone",
                   "riemann.ep_riemann.GenEOS_Solver",
                   "riemann2D_2section_steadystate.ep_riemann2D_2section_steadystate.IGEOS_Solver"}
 BBOX_TOL = {1: 1.0e-10, 2: 1.0e-3}
